@@ -111,7 +111,9 @@ def judge_roundtrip(ctx, case):
                 else:
                     if raw != xk.payload(pubv, False):
                         bad.append(("pub_of_prv.payload", xk.payload(pubv, False), raw))
-                    if rb32.ser256(xk.k) in raw:
+                    # (a scalar like 2 with an all-zero chain code "occurs" in the legitimate payload by coincidence:
+                    #  31 zero bytes of the chain code + the 02 parity byte; only occurrences absent from the reference payload count)
+                    if rb32.ser256(xk.k) in raw and rb32.ser256(xk.k) not in xk.payload(pubv, False):
                         bad.append(("pub_of_prv.leaks_scalar", "absent", "present"))
                     if raw[45] not in (2, 3):
                         bad.append(("pub_of_prv.key_prefix", "02/03", raw[45]))
@@ -143,7 +145,7 @@ def judge_serialize(ctx, case):
             bad.append(("payload.%s%s%d" % (typ, net, purpose), want, raw if kind == "valid" else kind))
         if len(s) != 111 or not s.startswith(rb32.spelled_prefix(typ, net, purpose)):
             bad.append(("spelling.%s%s%d" % (typ, net, purpose), rb32.spelled_prefix(typ, net, purpose), s[:6]))
-        if typ == "pub" and private and rb32.ser256(xk.k) in (raw or b""):
+        if typ == "pub" and private and rb32.ser256(xk.k) in (raw or b"") and rb32.ser256(xk.k) not in want:
             bad.append(("leaks_scalar", "absent", "present"))
     # default version follows the node's network
     try:
